@@ -144,10 +144,17 @@ class BookModel:
             elif self.mid[self.t] is not None:
                 self.mp[self.t] = self.mid[self.t]
 
-    def clock_step(self) -> List[MO]:
+    def clock_jump(self, k: int) -> List[MO]:
+        """the clock set k >= 1 steps ahead at once (Market._set_time): orders whose lifetime ended anywhere in between leave the
+        book at the jump.  (The price series of the skipped steps are not modelled: C08 is not judged on histories with jumps.)"""
+        for _ in range(k - 1):
+            self.clock_step(expire=False)
+        return self.clock_step()
+
+    def clock_step(self, expire: bool = True) -> List[MO]:
         self.t += 1
         expired = []
-        for side in (True, False):
+        for side in (True, False) if expire else ():
             keep = []
             for o in self.book[side]:
                 if o.ttl is not None and o.t + o.ttl < self.t:
